@@ -95,6 +95,13 @@ func dump(args []string) int {
 	if *key >= 0 {
 		rules.DebugDecHooks(ctx, in, *key)
 	}
+	if *key == -2 {
+		var o []string
+		if *opq != "" {
+			o = strings.Split(*opq, ",")
+		}
+		rules.DebugDecHooksOpaque(ctx, in, o)
+	}
 	res, mem, _ := in.Run(f, nil, nil)
 	printRun(in, res, mem)
 	return 0
